@@ -22,3 +22,16 @@ func VerifInertTimeWheel(queueCap int) *TimeWheel {
 
 // VerifQueued reports how many operations are queued in the wheel.
 func (tw *TimeWheel) VerifQueued() int { return len(tw.pipelineC) }
+
+// VerifSessStopTimers stops the capacity / idle timers NewResourcePool starts (the rig's pools
+// live for one replay; no timer may outlive or influence it).
+func VerifSessStopTimers(rp *ResourcePool) {
+	if rp.idleTimer != nil {
+		rp.idleTimer.Stop()
+		rp.idleTimer = nil
+	}
+	if rp.capTimer != nil {
+		rp.capTimer.Stop()
+		rp.capTimer = nil
+	}
+}
